@@ -13,9 +13,11 @@ mass = integral of the joint density; the root search of `inverse_tail_integral`
 -/
 import RpylibModel.Model.CopulaMass
 import RpylibModel.Proofs.Lemmas.C12Order
+import RpylibModel.Proofs.Lemmas.C12Nd
 import Mathlib.Tactic.Linarith
 import Mathlib.Tactic.Ring
 import Mathlib.Tactic.Order
+import Mathlib.Order.Fin.Basic
 import Mathlib.Algebra.Order.Field.Basic
 import Mathlib.Algebra.Order.Field.Rat
 
@@ -97,18 +99,7 @@ theorem mass3d_sub1 (U : Tail X R) (z : X) (i : Nat) (a b : X) : mass3d U z [i] 
 
 /-! ## Additivity under an axis split -/
 
-theorem straddle_iff (z a b : X) : straddle z a b = true ↔ a < z ∧ z < b := by simp [straddle]
-
-/-- a split point on the positive side: the right piece does not straddle, the left piece straddles iff the whole does -/
-theorem straddle_split_pos (z a b c : X) (hzc : z < c) (hcb : c < b) :
-    straddle z c b = false ∧ straddle z a b = straddle z a c := by
-  have : z < b := lt_trans hzc hcb
-  simp [straddle, hzc, this, not_lt_of_gt hzc]
-
-theorem straddle_split_neg (z a b c : X) (hac : a < c) (hcz : c < z) :
-    straddle z a c = false ∧ straddle z a b = straddle z c b := by
-  have : a < z := lt_trans hac hcz
-  simp [straddle, hcz, this, not_lt_of_gt hcz]
+/- `straddle_iff`, `straddle_split_pos`, `straddle_split_neg`, `straddle_whole` live in Lemmas/C12Nd.lean -/
 
 /-- d = 2, split of the first side at `c ≠ 0`, rectangle not containing the origin -/
 theorem mass2d_additive_split1 (U : Tail X R) (z : X) (i1 i2 : Nat) (a1 a2 b1 b2 c : X) (hac : a1 < c) (hcb : c < b1)
@@ -235,10 +226,80 @@ theorem mass3d_additive_split3 (U : Tail X R) (z : X) (i1 i2 i3 : Nat) (a1 a2 a3
     all_goals simp [mass3d, mass2d, mass1d, cross, e1, e2, h1, h2, h3]
     all_goals ring
 
-/-! ## Margins: the other coordinates over the whole line -/
+/-! ## Every dimension: additivity and margins of the general recursion `_mass_nd` -/
 
-theorem straddle_whole (z ni pi : X) (hni : ni < z) (hpi : z < pi) : straddle z ni pi = true := by
-  simp [straddle, hni, hpi]
+/-- **any d**: `_mass_nd` is additive when side `k` of the rectangle is split at a point `c` other than 0
+    (`bl[k] = c`, `ar[k] = c`).  Holds for every tail-integral family, every index list, every sign pattern of the
+    other coordinates — also for boxes containing the origin, which the recursion (unlike the fast paths) treats
+    consistently.  Proof: induction on the list of coordinates (`massGo_rest_split`). -/
+theorem massNd_additive_split (U : Tail X R) (z ni pi : X) (I : List Nat) (a b : List X) (k i : Nat) (ak bk c : X)
+    (hI : I[k]? = some i) (ha : a[k]? = some ak) (hb : b[k]? = some bk) (hac : ak < c) (hcb : c < bk) (hc : c ≠ z) :
+    massNd U z ni pi I a b = massNd U z ni pi I a (b.set k c) + massNd U z ni pi I (a.set k c) b := by
+  obtain ⟨pre, post, h1, h2, -⟩ := zip3_at k I a b i ak bk hI ha hb
+  have l := h2 ak c
+  have r := h2 c bk
+  rw [set_self_of_getElem? a k ak ha] at l
+  rw [set_self_of_getElem? b k bk hb] at r
+  unfold massNd
+  rw [h1, l, r]
+  exact massGo_rest_split U z ni pi pre [] post i ak c bk hac hcb hc
+
+/-- **any d**, split exactly at 0 of a straddling side (finding #30): the two halves `(a_k, 0]`, `(0, b_k]` do not
+    straddle, so the recursion evaluates them as plain corner sums, and what is lost is exactly
+    `mass of the sub-family without k − mass over (b_k, ∞] − mass over (−∞, a_k] − mass over (a_k, b_k] as a plain
+    corner sum`; stated for the first coordinate -/
+theorem massNd_split_at_zero_defect (U : Tail X R) (z ni pi : X) (i : Nat) (I : List Nat) (ak bk : X) (a b : List X)
+    (hak : ak < z) (hbk : z < bk) :
+    massNd U z ni pi (i :: I) (ak :: a) (bk :: b) =
+      massNd U z ni pi (i :: I) (ak :: a) (z :: b) + massNd U z ni pi (i :: I) (z :: a) (bk :: b) +
+        (massNd U z ni pi I a b - massNd U z ni pi (i :: I) (bk :: a) (pi :: b)
+          - massNd U z ni pi (i :: I) (ni :: a) (ak :: b)
+          - massGo U z ni pi [(i, ak, bk)] (zip3 I a b)) := by
+  have s1 : straddle z ak bk = true := by simp [straddle, hak, hbk]
+  have s2 : straddle z ak z = false := by simp [straddle]
+  have s3 : straddle z z bk = false := by simp [straddle]
+  have s4 : straddle z bk pi = false := by simp [straddle, not_lt_of_gt hbk]
+  have s5 : straddle z ni ak = false := by simp [straddle, not_lt_of_gt hak]
+  simp only [massNd, zip3, massGo, s1, s2, s3, s4, s5, if_true, Bool.false_eq_true, if_false, List.nil_append]
+  have h := massGo_done_split U z ni pi (zip3 I a b) [] [] i ak z bk
+  simp only [List.nil_append] at h
+  rw [h]
+  ring
+
+/-- **any d**: a coordinate ranging over the whole line can be erased — the mass of the rectangle with
+    `(a_k, b_k] = (−∞, ∞]` is the mass of the sub-family of the other coordinates (`submargin_consistent`, general
+    recursion; by iteration: all other coordinates over the whole line ⇒ the one-dimensional marginal mass) -/
+theorem massNd_whole_line (U : Tail X R) (z ni pi : X) (hni : ni < z) (hpi : z < pi) (I : List Nat) (a b : List X)
+    (k i : Nat) (hI : I[k]? = some i) (ha : a[k]? = some ni) (hb : b[k]? = some pi) :
+    massNd U z ni pi I a b = massNd U z ni pi (I.eraseIdx k) (a.eraseIdx k) (b.eraseIdx k) := by
+  obtain ⟨pre, post, h1, -, h3⟩ := zip3_at k I a b i ni pi hI ha hb
+  unfold massNd
+  rw [h1, h3]
+  exact massGo_rest_whole U z ni pi hni hpi pre [] post i
+
+/-- **any d**: an empty side `(a_k, a_k]` that does not straddle gives mass 0 (first coordinate) -/
+theorem massNd_empty_side (U : Tail X R) (z ni pi : X) (i : Nat) (I : List Nat) (x : X) (a b : List X) :
+    massNd U z ni pi (i :: I) (x :: a) (x :: b) = 0 := by
+  have s : straddle z x x = false := by
+    simp only [straddle, Bool.and_eq_false_iff, decide_eq_false_iff_not]
+    rcases lt_or_ge x z with h | h
+    · right; exact not_lt_of_gt h
+    · left; exact not_lt_of_ge h
+  simp only [massNd, zip3, massGo, s, Bool.false_eq_true, if_false, List.nil_append]
+  exact massGo_done_degenerate U z ni pi (zip3 I a b) [] [] i x
+
+/-- non-vacuity of `massNd_additive_split` in d = 4 over the driver's coordinate type: second side split at 1/2 -/
+example (U : Tail (Ext Rat) Rat) :
+    massNd U (.fin 0) .negInf .posInf [0, 1, 2, 3] [.fin (-1), .fin (-1), .negInf, .fin 1]
+        [.fin 1, .fin 2, .fin 3, .posInf] =
+      massNd U (.fin 0) .negInf .posInf [0, 1, 2, 3] [.fin (-1), .fin (-1), .negInf, .fin 1]
+          [.fin 1, .fin (1/2), .fin 3, .posInf] +
+        massNd U (.fin 0) .negInf .posInf [0, 1, 2, 3] [.fin (-1), .fin (1/2), .negInf, .fin 1]
+          [.fin 1, .fin 2, .fin 3, .posInf] :=
+  massNd_additive_split U (.fin 0) .negInf .posInf [0, 1, 2, 3] _ _ 1 1 (.fin (-1)) (.fin 2) (.fin (1/2)) rfl rfl rfl
+    (by decide +kernel) (by decide +kernel) (by decide +kernel)
+
+/-! ## Margins: the other coordinates over the whole line -/
 
 /-- d = 2: first coordinate over the whole line ⇒ marginal mass of the second -/
 theorem mass2d_whole_line1 (U : Tail X R) (z ni pi : X) (H : VanishAtInf U ni pi) (hni : ni < z) (hpi : z < pi)
@@ -342,6 +403,159 @@ theorem mass2d_nonneg (U : Tail X S) (z : X) (F : Y → Y → S) (hF : TwoIncrea
     have v2 := hF _ _ _ _ (htop (u1 b1)) (m2 h2)
     simp at *; linarith
   · exact absurd ⟨h1, h2⟩ h
+
+/-! ### d = 3 -/
+
+/-- `F` gives non-negative volume to every box of `Y³` — the 3-increasing property of the copula (C11) -/
+def ThreeIncreasing (F : Y → Y → Y → S) : Prop :=
+  ∀ x x' y y' w w', x ≤ x' → y ≤ y' → w ≤ w' →
+    0 ≤ F x' y' w' - F x y' w' - F x' y w' - F x' y' w + F x y w' + F x y' w + F x' y w - F x y w
+
+/-- the tail-integral family of a 3-d copula model: `U_{123} = F(u_1, u_2, u_3)` and the sub-families are the
+    I-margins of `F` (`margin`: the complement positions run through ⊥ = −∞, ⊤ = +∞ with the product of signs) -/
+structure Family3 (U : Tail X S) (F : Y → Y → Y → S) (bot top : Y) (u1 u2 u3 : X → Y) (i1 i2 i3 : Nat) : Prop where
+  h123 : ∀ x1 x2 x3, U [i1, i2, i3] [x1, x2, x3] = F (u1 x1) (u2 x2) (u3 x3)
+  h12 : ∀ x1 x2, U [i1, i2] [x1, x2] = F (u1 x1) (u2 x2) top - F (u1 x1) (u2 x2) bot
+  h13 : ∀ x1 x3, U [i1, i3] [x1, x3] = F (u1 x1) top (u3 x3) - F (u1 x1) bot (u3 x3)
+  h23 : ∀ x2 x3, U [i2, i3] [x2, x3] = F top (u2 x2) (u3 x3) - F bot (u2 x2) (u3 x3)
+  h1 : ∀ x, U [i1] [x] = F (u1 x) top top - F (u1 x) top bot - F (u1 x) bot top + F (u1 x) bot bot
+  h2 : ∀ x, U [i2] [x] = F top (u2 x) top - F top (u2 x) bot - F bot (u2 x) top + F bot (u2 x) bot
+  h3 : ∀ x, U [i3] [x] = F top top (u3 x) - F top bot (u3 x) - F bot top (u3 x) + F bot bot (u3 x)
+
+/-- d = 3, no straddling coordinate (orthant box): the coded mass is one `F`-volume -/
+theorem mass3d_nonneg_orthant (U : Tail X S) (z : X) (F : Y → Y → Y → S) (hF : ThreeIncreasing F) (bot top : Y)
+    (u1 u2 u3 : X → Y) (i1 i2 i3 : Nat) (hU : Family3 U F bot top u1 u2 u3 i1 i2 i3) (a1 a2 a3 b1 b2 b3 : X)
+    (h1 : straddle z a1 b1 = false) (h2 : straddle z a2 b2 = false) (h3 : straddle z a3 b3 = false)
+    (m1 : u1 b1 ≤ u1 a1) (m2 : u2 b2 ≤ u2 a2) (m3 : u3 b3 ≤ u3 a3) :
+    0 ≤ mass3d U z [i1, i2, i3] [a1, a2, a3] [b1, b2, b3] := by
+  simp only [mass3d, h1, h2, h3, hU.h123, Bool.false_eq_true, if_false]
+  have := hF _ _ _ _ _ _ m1 m2 m3
+  linarith
+
+/-- d = 3, exactly one straddling coordinate: the coded mass is the sum of two `F`-volumes
+    (`(⊥, u_k a_k]` and `(u_k b_k, ⊤]` in the straddling coordinate) -/
+theorem mass3d_nonneg_one (U : Tail X S) (z : X) (F : Y → Y → Y → S) (hF : ThreeIncreasing F) (bot top : Y)
+    (hbot : ∀ y, bot ≤ y) (htop : ∀ y, y ≤ top)
+    (u1 u2 u3 : X → Y) (i1 i2 i3 : Nat) (hU : Family3 U F bot top u1 u2 u3 i1 i2 i3) (a1 a2 a3 b1 b2 b3 : X) :
+    (straddle z a1 b1 = true → straddle z a2 b2 = false → straddle z a3 b3 = false → u2 b2 ≤ u2 a2 → u3 b3 ≤ u3 a3 →
+      0 ≤ mass3d U z [i1, i2, i3] [a1, a2, a3] [b1, b2, b3]) ∧
+    (straddle z a1 b1 = false → straddle z a2 b2 = true → straddle z a3 b3 = false → u1 b1 ≤ u1 a1 → u3 b3 ≤ u3 a3 →
+      0 ≤ mass3d U z [i1, i2, i3] [a1, a2, a3] [b1, b2, b3]) ∧
+    (straddle z a1 b1 = false → straddle z a2 b2 = false → straddle z a3 b3 = true → u1 b1 ≤ u1 a1 → u2 b2 ≤ u2 a2 →
+      0 ≤ mass3d U z [i1, i2, i3] [a1, a2, a3] [b1, b2, b3]) := by
+  refine ⟨?_, ?_, ?_⟩
+  · intro h1 h2 h3 m2 m3
+    simp only [mass3d, mass2d, mass1d, cross, h1, h2, h3, hU.h123, hU.h23, Bool.false_eq_true, if_false, if_true]
+    have v1 := hF _ _ _ _ _ _ (hbot (u1 a1)) m2 m3
+    have v2 := hF _ _ _ _ _ _ (htop (u1 b1)) m2 m3
+    linarith
+  · intro h1 h2 h3 m1 m3
+    simp only [mass3d, mass2d, mass1d, cross, h1, h2, h3, hU.h123, hU.h13, Bool.false_eq_true, if_false, if_true]
+    have v1 := hF _ _ _ _ _ _ m1 (hbot (u2 a2)) m3
+    have v2 := hF _ _ _ _ _ _ m1 (htop (u2 b2)) m3
+    linarith
+  · intro h1 h2 h3 m1 m2
+    simp only [mass3d, mass2d, mass1d, cross, h1, h2, h3, hU.h123, hU.h12, Bool.false_eq_true, if_false, if_true]
+    have v1 := hF _ _ _ _ _ _ m1 m2 (hbot (u3 a3))
+    have v2 := hF _ _ _ _ _ _ m1 m2 (htop (u3 b3))
+    linarith
+
+/-- d = 3, exactly two straddling coordinates: the coded mass is the sum of four `F`-volumes -/
+theorem mass3d_nonneg_two (U : Tail X S) (z : X) (F : Y → Y → Y → S) (hF : ThreeIncreasing F) (bot top : Y)
+    (hbot : ∀ y, bot ≤ y) (htop : ∀ y, y ≤ top)
+    (u1 u2 u3 : X → Y) (i1 i2 i3 : Nat) (hU : Family3 U F bot top u1 u2 u3 i1 i2 i3) (a1 a2 a3 b1 b2 b3 : X) :
+    (straddle z a1 b1 = true → straddle z a2 b2 = true → straddle z a3 b3 = false → u3 b3 ≤ u3 a3 →
+      0 ≤ mass3d U z [i1, i2, i3] [a1, a2, a3] [b1, b2, b3]) ∧
+    (straddle z a1 b1 = true → straddle z a2 b2 = false → straddle z a3 b3 = true → u2 b2 ≤ u2 a2 →
+      0 ≤ mass3d U z [i1, i2, i3] [a1, a2, a3] [b1, b2, b3]) ∧
+    (straddle z a1 b1 = false → straddle z a2 b2 = true → straddle z a3 b3 = true → u1 b1 ≤ u1 a1 →
+      0 ≤ mass3d U z [i1, i2, i3] [a1, a2, a3] [b1, b2, b3]) := by
+  refine ⟨?_, ?_, ?_⟩
+  · intro h1 h2 h3 m3
+    simp only [mass3d, mass2d, mass1d, cross, h1, h2, h3, hU.h123, hU.h23, hU.h13, hU.h3, Bool.false_eq_true,
+      if_false, if_true]
+    have v1 := hF _ _ _ _ _ _ (hbot (u1 a1)) (hbot (u2 a2)) m3
+    have v2 := hF _ _ _ _ _ _ (hbot (u1 a1)) (htop (u2 b2)) m3
+    have v3 := hF _ _ _ _ _ _ (htop (u1 b1)) (hbot (u2 a2)) m3
+    have v4 := hF _ _ _ _ _ _ (htop (u1 b1)) (htop (u2 b2)) m3
+    linarith
+  · intro h1 h2 h3 m2
+    simp only [mass3d, mass2d, mass1d, cross, h1, h2, h3, hU.h123, hU.h23, hU.h12, hU.h2, Bool.false_eq_true,
+      if_false, if_true]
+    have v1 := hF _ _ _ _ _ _ (hbot (u1 a1)) m2 (hbot (u3 a3))
+    have v2 := hF _ _ _ _ _ _ (hbot (u1 a1)) m2 (htop (u3 b3))
+    have v3 := hF _ _ _ _ _ _ (htop (u1 b1)) m2 (hbot (u3 a3))
+    have v4 := hF _ _ _ _ _ _ (htop (u1 b1)) m2 (htop (u3 b3))
+    linarith
+  · intro h1 h2 h3 m1
+    simp only [mass3d, mass2d, mass1d, cross, h1, h2, h3, hU.h123, hU.h13, hU.h12, hU.h1, Bool.false_eq_true,
+      if_false, if_true]
+    have v1 := hF _ _ _ _ _ _ m1 (hbot (u2 a2)) (hbot (u3 a3))
+    have v2 := hF _ _ _ _ _ _ m1 (hbot (u2 a2)) (htop (u3 b3))
+    have v3 := hF _ _ _ _ _ _ m1 (htop (u2 b2)) (hbot (u3 a3))
+    have v4 := hF _ _ _ _ _ _ m1 (htop (u2 b2)) (htop (u3 b3))
+    linarith
+
+/-- **d = 3: the coded mass of every rectangle that does not contain the origin is non-negative**, if the
+    tail-integral family is that of a 3-increasing `F` (`Family3`) and the marginal tail integrals decrease along every
+    non-straddling side (`u_k b_k ≤ u_k a_k`).  All 26 sign patterns: orthant boxes (one `F`-volume), one straddling
+    coordinate (two), two straddling coordinates (four). -/
+theorem mass3d_nonneg (U : Tail X S) (z : X) (F : Y → Y → Y → S) (hF : ThreeIncreasing F) (bot top : Y)
+    (hbot : ∀ y, bot ≤ y) (htop : ∀ y, y ≤ top)
+    (u1 u2 u3 : X → Y) (i1 i2 i3 : Nat) (hU : Family3 U F bot top u1 u2 u3 i1 i2 i3) (a1 a2 a3 b1 b2 b3 : X)
+    (m1 : straddle z a1 b1 = false → u1 b1 ≤ u1 a1) (m2 : straddle z a2 b2 = false → u2 b2 ≤ u2 a2)
+    (m3 : straddle z a3 b3 = false → u3 b3 ≤ u3 a3)
+    (h : ¬ (straddle z a1 b1 = true ∧ straddle z a2 b2 = true ∧ straddle z a3 b3 = true)) :
+    0 ≤ mass3d U z [i1, i2, i3] [a1, a2, a3] [b1, b2, b3] := by
+  obtain ⟨o1, o2, o3⟩ := mass3d_nonneg_one U z F hF bot top hbot htop u1 u2 u3 i1 i2 i3 hU a1 a2 a3 b1 b2 b3
+  obtain ⟨t1, t2, t3⟩ := mass3d_nonneg_two U z F hF bot top hbot htop u1 u2 u3 i1 i2 i3 hU a1 a2 a3 b1 b2 b3
+  rcases h1 : straddle z a1 b1 <;> rcases h2 : straddle z a2 b2 <;> rcases h3 : straddle z a3 b3
+  · exact mass3d_nonneg_orthant U z F hF bot top u1 u2 u3 i1 i2 i3 hU a1 a2 a3 b1 b2 b3 h1 h2 h3 (m1 h1) (m2 h2) (m3 h3)
+  · exact o3 h1 h2 h3 (m1 h1) (m2 h2)
+  · exact o2 h1 h2 h3 (m1 h1) (m3 h3)
+  · exact t3 h1 h2 h3 (m1 h1)
+  · exact o1 h1 h2 h3 (m2 h2) (m3 h3)
+  · exact t2 h1 h2 h3 (m2 h2)
+  · exact t1 h1 h2 h3 (m3 h3)
+  · exact absurd ⟨h1, h2, h3⟩ h
+
+/-! ### non-vacuity of `mass3d_nonneg`: a concrete 3-increasing `F` on the five-point chain ⊥ < −1 < 0 < 1 < ⊤ -/
+
+/-- product of the centred coordinates: grounded, 3-increasing (volume = product of the side lengths) -/
+def exF (x y w : Fin 5) : ℚ := ((x.val : ℚ) - 2) * ((y.val : ℚ) - 2) * ((w.val : ℚ) - 2)
+
+/-- marginal tail integral of `δ_{-1} + δ_{1}` coded on the chain (2 is the zero of the chain) -/
+def exU1 (x : ℚ) : Fin 5 := if x < -1 then 2 else if x < 0 then 1 else if x < 1 then 3 else 2
+
+def exU : Tail ℚ ℚ := fun I x =>
+  match I, x with
+  | [0, 1, 2], [x1, x2, x3] => exF (exU1 x1) (exU1 x2) (exU1 x3)
+  | [0, 1], [x1, x2] => exF (exU1 x1) (exU1 x2) 4 - exF (exU1 x1) (exU1 x2) 0
+  | [0, 2], [x1, x3] => exF (exU1 x1) 4 (exU1 x3) - exF (exU1 x1) 0 (exU1 x3)
+  | [1, 2], [x2, x3] => exF 4 (exU1 x2) (exU1 x3) - exF 0 (exU1 x2) (exU1 x3)
+  | [0], [x] => exF (exU1 x) 4 4 - exF (exU1 x) 4 0 - exF (exU1 x) 0 4 + exF (exU1 x) 0 0
+  | [1], [x] => exF 4 (exU1 x) 4 - exF 4 (exU1 x) 0 - exF 0 (exU1 x) 4 + exF 0 (exU1 x) 0
+  | [2], [x] => exF 4 4 (exU1 x) - exF 4 0 (exU1 x) - exF 0 4 (exU1 x) + exF 0 0 (exU1 x)
+  | _, _ => 0
+
+theorem exF_threeIncreasing : ThreeIncreasing exF := by
+  intro x x' y y' w w' hx hy hw
+  have e : exF x' y' w' - exF x y' w' - exF x' y w' - exF x' y' w + exF x y w' + exF x y' w + exF x' y w - exF x y w =
+      ((x'.val : ℚ) - x.val) * ((y'.val : ℚ) - y.val) * ((w'.val : ℚ) - w.val) := by unfold exF; ring
+  rw [e]
+  have hx' : (x.val : ℚ) ≤ x'.val := by exact_mod_cast hx
+  have hy' : (y.val : ℚ) ≤ y'.val := by exact_mod_cast hy
+  have hw' : (w.val : ℚ) ≤ w'.val := by exact_mod_cast hw
+  exact mul_nonneg (mul_nonneg (sub_nonneg.mpr hx') (sub_nonneg.mpr hy')) (sub_nonneg.mpr hw')
+
+theorem exU_family : Family3 exU exF 0 4 exU1 exU1 exU1 0 1 2 :=
+  ⟨fun _ _ _ => rfl, fun _ _ => rfl, fun _ _ => rfl, fun _ _ => rfl, fun _ => rfl, fun _ => rfl, fun _ => rfl⟩
+
+/-- two straddling sides and one side on the positive half line: all hypotheses of `mass3d_nonneg` hold -/
+example : 0 ≤ mass3d exU 0 [0, 1, 2] [-2, -2, 1/2] [3, 3, 2] :=
+  mass3d_nonneg exU 0 exF exF_threeIncreasing 0 4 (fun y => Fin.zero_le y) (fun y => Fin.le_last y) exU1 exU1 exU1 0 1 2
+    exU_family (-2) (-2) (1/2) 3 3 2 (by norm_num [straddle]) (by norm_num [straddle])
+    (by intro _; norm_num [exU1]; decide) (by norm_num [straddle])
 
 end nonneg
 
